@@ -17,8 +17,10 @@ pub enum Ev {
 /// per-call transfer limits and pending pattern, cycled
 /// the error kinds an injected fault may carry: a failing stream reports its failure in many ways (a dropped connection
 /// typically as UnexpectedEof or BrokenPipe).  Interrupted is left out: by contract it asks for a retry.
-pub const FAULT_KINDS: [io::ErrorKind; 6] =
-    [io::ErrorKind::Other, io::ErrorKind::UnexpectedEof, io::ErrorKind::BrokenPipe, io::ErrorKind::InvalidData, io::ErrorKind::TimedOut, io::ErrorKind::NotFound];
+pub const FAULT_KINDS: [io::ErrorKind; 12] = [
+    io::ErrorKind::Other, io::ErrorKind::UnexpectedEof, io::ErrorKind::BrokenPipe, io::ErrorKind::InvalidData, io::ErrorKind::TimedOut, io::ErrorKind::NotFound,
+    io::ErrorKind::InvalidInput, io::ErrorKind::PermissionDenied, io::ErrorKind::ConnectionReset, io::ErrorKind::ConnectionAborted, io::ErrorKind::Unsupported, io::ErrorKind::WriteZero,
+];
 
 #[derive(Clone, Debug, Default)]
 pub struct Schedule {
@@ -44,6 +46,8 @@ pub struct Core {
     /// when non-zero: writes longer than this, and writes beyond the dense 2 GiB region, are logged
     /// (position and length) but their bytes are not stored (wdata gets an empty marker)
     pub sparse_over: usize,
+    /// Some(b): injected fail-stop faults are bare error kinds (b) or carry a message (!b); None: alternating
+    pub fail_bare: Option<bool>,
 }
 
 impl Core {
@@ -59,7 +63,8 @@ impl Core {
             return Err(io::Error::new(kind, "injected transient fault"));
         }
         match self.fail_from {
-            Some(f) if k >= f => Err(io::Error::new(kind, "injected fault")),
+            // (every other fault is a bare error kind without a message, as `kind.into()` gives it)
+            Some(f) if k >= f => Err(if !self.fail_bare.unwrap_or((f / 4) % 2 == 1) { io::Error::new(kind, "injected fault") } else { io::Error::from(kind) }),
             _ => Ok(()),
         }
     }
